@@ -166,7 +166,7 @@ include L
 def Agrees (res : Res Bytes ρ) (st : StrSt) (k : Nat) (xs : Bytes) : Prop :=
   (∃ sc r' xs' k', res = .ok sc r' ∧ A r' xs' k' false ∧ xs'.length < xs.length ∧ sc ≠ [] ∧
       strRun env stk st k xs = strRun env stk { st with out := sc.reverse, esc := .none } k' xs') ∨
-  (∃ c r', res = .err c r' ∧ strRun env stk st k xs = .err c (pos r'))
+  (∃ c r' xs' j, res = .err c r' ∧ A r' xs' j false ∧ strRun env stk st k xs = .err c j)
 
 omit L in
 theorem four_of_len (ws : Bytes) (h : ¬ ws.length < 4) : ∃ a b c d ys, ws = a :: b :: c :: d :: ys := by
@@ -188,7 +188,7 @@ theorem push_reverse (n : Nat) (out : Bytes) (h : n < 0x110000) :
 
 theorem uniLoop_lead_validate (henv : env.tgt = .value) (fuel : Nat) {r : ρ} {xs : Bytes} {k : Nat}
     (hA : A r xs k false) (st : StrSt) (n : Nat) (hst : st.esc = .lead1 n) (hn1 : 0xD800 ≤ n) (hn2 : n ≤ 0xDBFF) :
-    Agrees (A := A) (pos := pos) env stk (uniLoop ops true (fuel + 1) n r st.out.reverse) st k xs := by
+    Agrees (A := A) env stk (uniLoop ops true (fuel + 1) n r st.out.reverse) st k xs := by
   have hlead : (decide (n < Gen.uniLeadLo) || decide (n > Gen.uniLeadHi)) = false := by
     simp [uni_consts]; omega
   unfold Agrees
@@ -196,8 +196,8 @@ theorem uniLoop_lead_validate (henv : env.tgt = .value) (fuel : Nat) {r : ρ} {x
   match xs, hA with
   | [], hA =>
     obtain ⟨r', h1, hA1⟩ := peekOrEof_nil L hA
-    refine .inr ⟨.EofWhileParsingString, r', by simp only [h1], ?_⟩
-    rw [strRun_nil, pos_clean L hA1]
+    refine .inr ⟨.EofWhileParsingString, r', _, _, by simp only [h1], hA1, ?_⟩
+    rw [strRun_nil]
   | e :: zs, hA =>
     obtain ⟨r1, p1, h1, _, hA1⟩ := peekOrEof_cons L hA
     simp only [h1, uni_consts.2.2.1]
@@ -208,8 +208,8 @@ theorem uniLoop_lead_validate (henv : env.tgt = .value) (fuel : Nat) {r : ρ} {x
       match zs, hA1 with
       | [], hA1 =>
         obtain ⟨r', h2, hA2⟩ := peekOrEof_nil L hA1
-        refine .inr ⟨.EofWhileParsingString, r', by simp only [h2], ?_⟩
-        rw [strRun_nil, pos_clean L hA2]
+        refine .inr ⟨.EofWhileParsingString, r', _, _, by simp only [h2], hA2, ?_⟩
+        rw [strRun_nil]
       | f :: ws, hA1 =>
         obtain ⟨r3, p3, h3, _, hA3⟩ := peekOrEof_cons L hA1
         simp only [h3, uni_consts.2.2.2.1]
@@ -219,8 +219,8 @@ theorem uniLoop_lead_validate (henv : env.tgt = .value) (fuel : Nat) {r : ρ} {x
           rw [strRun_lead2 env stk _ n rfl]
           by_cases hl : ws.length < 4
           · obtain ⟨r', h4, hA4⟩ := L.hex_eof hA3 hl
-            refine .inr ⟨.EofWhileParsingString, r', by simp only [h4], ?_⟩
-            rw [strRun_hex_short env stk _ (some n) rfl _ ws hl, pos_clean L hA4]
+            refine .inr ⟨.EofWhileParsingString, r', _, _, by simp only [h4], hA4, ?_⟩
+            rw [strRun_hex_short env stk _ (some n) rfl _ ws hl]
           · obtain ⟨a, b, c, d, ys, rfl⟩ := four_of_len ws hl
             · 
               obtain ⟨r5, hA5, h5⟩ := L.hex_ok hA3
@@ -228,16 +228,16 @@ theorem uniLoop_lead_validate (henv : env.tgt = .value) (fuel : Nat) {r : ρ} {x
               cases hd : Model.Hex.decodeFourHex a b c d with
               | none =>
                 rw [hd] at h5
-                refine .inr ⟨.InvalidEscape, r5, by simp only [h5], ?_⟩
-                rw [strRun_hex_bad env stk _ (some n) a b c d rfl _ _ (by rw [hex4_eq, hd]), pos_clean L hA5]
+                refine .inr ⟨.InvalidEscape, r5, _, _, by simp only [h5], hA5, ?_⟩
+                rw [strRun_hex_bad env stk _ (some n) a b c d rfl _ _ (by rw [hex4_eq, hd])]
               | some n2 =>
                 rw [hd] at h5
                 simp only [h5, uni_consts]
                 by_cases ht : n2 < 0xDC00 ∨ 0xDFFF < n2
                 · have : (decide (n2 < 0xDC00) || decide (n2 > 0xDFFF)) = true := by simpa using ht
                   simp only [this, ↓reduceIte]
-                  refine .inr ⟨_, r5, rfl, ?_⟩
-                  rw [strRun_hex2_bad env stk henv _ n a b c d rfl _ _ n2 (by rw [hex4_eq, hd]) ht, pos_clean L hA5]
+                  refine .inr ⟨_, r5, _, _, rfl, hA5, ?_⟩
+                  rw [strRun_hex2_bad env stk henv _ n a b c d rfl _ _ n2 (by rw [hex4_eq, hd]) ht]
                 · have : (decide (n2 < 0xDC00) || decide (n2 > 0xDFFF)) = false := by simpa using ht
                   simp only [this, Bool.false_eq_true, ↓reduceIte]
                   have hp := pair_eq n n2 (by omega) (by omega)
@@ -248,36 +248,36 @@ theorem uniLoop_lead_validate (henv : env.tgt = .value) (fuel : Nat) {r : ρ} {x
                     rw [hp, push_reverse _ _ hlt]
         · have : (f != 0x75) = true := by simpa using hf
           simp only [this, ↓reduceIte]
-          refine .inr ⟨_, _, rfl, ?_⟩
-          rw [strRun_lead2_bad env stk _ n rfl _ f ws hf, pos_clean L hA3]
+          refine .inr ⟨_, _, _, _, rfl, hA3, ?_⟩
+          rw [strRun_lead2_bad env stk _ n rfl _ f ws hf]
     · have : (e != 0x5c) = true := by simpa using he
       simp only [this, ↓reduceIte]
-      refine .inr ⟨_, _, rfl, ?_⟩
-      rw [strRun_lead1_bad env stk st n hst k e zs he, pos_clean L hA1]
+      refine .inr ⟨_, _, _, _, rfl, hA1, ?_⟩
+      rw [strRun_lead1_bad env stk st n hst k e zs he]
 
 omit L in
 /-- transport along machine steps taken before the function is entered -/
 theorem Agrees.mono {res : Res Bytes ρ} {st st' : StrSt} {k k' : Nat} {xs xs' : Bytes}
-    (h : Agrees (A := A) (pos := pos) env stk res st' k' xs') (hrun : strRun env stk st k xs = strRun env stk st' k' xs')
+    (h : Agrees (A := A) env stk res st' k' xs') (hrun : strRun env stk st k xs = strRun env stk st' k' xs')
     (hlen : xs'.length ≤ xs.length) (hk : st'.isKey = st.isKey) (he : st'.escaped = st.escaped) :
-    Agrees (A := A) (pos := pos) env stk res st k xs := by
-  rcases h with ⟨sc, r', ys, j, h1, h2, h3, h4, h5⟩ | ⟨c, r', h1, h2⟩
+    Agrees (A := A) env stk res st k xs := by
+  rcases h with ⟨sc, r', ys, j, h1, h2, h3, h4, h5⟩ | ⟨c, r', ys, j, h1, h2, h3⟩
   · refine .inl ⟨sc, r', ys, j, h1, h2, by omega, h4, ?_⟩
     rw [hrun, h5]
     obtain ⟨o, e, ik, es⟩ := st; obtain ⟨o', e', ik', es'⟩ := st'
     simp only at hk he; subst hk; subst he; rfl
-  · exact .inr ⟨c, r', h1, by rw [hrun, h2]⟩
+  · exact .inr ⟨c, r', ys, j, h1, h2, by rw [hrun, h3]⟩
 
 /-- **`parse_escape(read, validate = true, scratch)`** from right after the backslash -/
 theorem parseEscape_validate (henv : env.tgt = .value) (fuel : Nat) {r : ρ} {xs : Bytes} {k : Nat}
     (hA : A r xs k false) (st : StrSt) (hst : st.esc = .bs) :
-    Agrees (A := A) (pos := pos) env stk (parseEscape ops true (fuel + 1) r st.out.reverse) st k xs := by
+    Agrees (A := A) env stk (parseEscape ops true (fuel + 1) r st.out.reverse) st k xs := by
   unfold parseEscape parseEscapeWith
   match xs, hA with
   | [], hA =>
     obtain ⟨r', h1, hA1⟩ := nextOrEof_nil L hA
-    refine .inr ⟨.EofWhileParsingString, r', by simp only [h1], ?_⟩
-    rw [strRun_nil, pos_clean L hA1]
+    refine .inr ⟨.EofWhileParsingString, r', _, _, by simp only [h1], hA1, ?_⟩
+    rw [strRun_nil]
   | ch :: ys, hA =>
     obtain ⟨r1, h1, hA1⟩ := nextOrEof_cons L hA
     simp only [h1]
@@ -305,16 +305,16 @@ theorem parseEscape_validate (henv : env.tgt = .value) (fuel : Nat) {r : ρ} {xs
         have hrun0 := strRun_u env stk st hst k ys
         by_cases hl : ys.length < 4
         · obtain ⟨r', h4, hA4⟩ := L.hex_eof hA1 hl
-          refine .inr ⟨.EofWhileParsingString, r', by simp only [h4], ?_⟩
-          rw [hrun0, strRun_hex_short env stk _ none rfl _ ys hl, pos_clean L hA4]
+          refine .inr ⟨.EofWhileParsingString, r', _, _, by simp only [h4], hA4, ?_⟩
+          rw [hrun0, strRun_hex_short env stk _ none rfl _ ys hl]
         · obtain ⟨a, b, c, d, zs, rfl⟩ := four_of_len ys hl
           obtain ⟨r5, hA5, h5⟩ := L.hex_ok hA1
           have hrun1 := strRun_hex4 env stk { st with esc := .hex [] none } none rfl (k + 1) a b c d zs
           cases hd : Model.Hex.decodeFourHex a b c d with
           | none =>
             rw [hd] at h5
-            refine .inr ⟨.InvalidEscape, r5, by simp only [h5], ?_⟩
-            rw [hrun0, hrun1, strRun_hex_bad env stk _ none a b c d rfl _ _ (by rw [hex4_eq, hd]), pos_clean L hA5]
+            refine .inr ⟨.InvalidEscape, r5, _, _, by simp only [h5], hA5, ?_⟩
+            rw [hrun0, hrun1, strRun_hex_bad env stk _ none a b c d rfl _ _ (by rw [hex4_eq, hd])]
           | some n =>
             rw [hd] at h5
             have hh : hex4 [a, b, c, d] = some n := by rw [hex4_eq, hd]
@@ -322,8 +322,8 @@ theorem parseEscape_validate (henv : env.tgt = .value) (fuel : Nat) {r : ρ} {xs
             by_cases ht : 0xDC00 ≤ n ∧ n ≤ 0xDFFF
             · have : (decide (n ≥ 0xDC00) && decide (n ≤ 0xDFFF)) = true := by simpa using ht
               simp only [this, ↓reduceIte]
-              refine .inr ⟨_, r5, rfl, ?_⟩
-              rw [hrun0, hrun1, strRun_hex_trail env stk henv _ a b c d rfl _ _ n hh ht.1 ht.2, pos_clean L hA5]
+              refine .inr ⟨_, r5, _, _, rfl, hA5, ?_⟩
+              rw [hrun0, hrun1, strRun_hex_trail env stk henv _ a b c d rfl _ _ n hh ht.1 ht.2]
             · have : (decide (n ≥ 0xDC00) && decide (n ≤ 0xDFFF)) = false := by simpa using ht
               simp only [this, Bool.false_eq_true, ↓reduceIte]
               by_cases hle : 0xD800 ≤ n ∧ n ≤ 0xDBFF
@@ -339,25 +339,25 @@ theorem parseEscape_validate (henv : env.tgt = .value) (fuel : Nat) {r : ρ} {xs
                 rw [hrun0, hrun1, strRun_hex_scalar env stk henv _ a b c d rfl _ _ n hh (by omega), push_reverse _ _ (by omega)]
       · have : (ch == 0x75) = false := by simpa using hu
         simp only [this, Bool.false_eq_true, ↓reduceIte]
-        refine .inr ⟨_, r1, rfl, ?_⟩
-        rw [strRun_badEscape env stk st hst k ch ys hs hu, pos_clean L hA1]
+        refine .inr ⟨_, r1, _, _, rfl, hA1, ?_⟩
+        rw [strRun_badEscape env stk st hst k ch ys hs hu]
 
 /-- `ignore_escape` against the machine on skipped content (the machine's `out` is irrelevant there) -/
 def AgreesI (res : Res Unit ρ) (st : StrSt) (k : Nat) (xs : Bytes) : Prop :=
   (∃ r' xs' k' st', res = .ok () r' ∧ A r' xs' k' false ∧ xs'.length < xs.length ∧ st'.esc = .none ∧
       strRun env stk st k xs = strRun env stk st' k' xs') ∨
-  (∃ c r', res = .err c r' ∧ strRun env stk st k xs = .err c (pos r'))
+  (∃ c r' xs' j, res = .err c r' ∧ A r' xs' j false ∧ strRun env stk st k xs = .err c j)
 
 /-- **`ignore_escape(read)`** from right after the backslash -/
 theorem ignoreEscape_spec (henv : env.tgt = .ignored) {r : ρ} {xs : Bytes} {k : Nat}
     (hA : A r xs k false) (st : StrSt) (hst : st.esc = .bs) :
-    AgreesI (A := A) (pos := pos) env stk (ignoreEscape ops r) st k xs := by
+    AgreesI (A := A) env stk (ignoreEscape ops r) st k xs := by
   unfold AgreesI ignoreEscape
   match xs, hA with
   | [], hA =>
     obtain ⟨r', h1, hA1⟩ := nextOrEof_nil L hA
-    refine .inr ⟨.EofWhileParsingString, r', by simp only [h1], ?_⟩
-    rw [strRun_nil, pos_clean L hA1]
+    refine .inr ⟨.EofWhileParsingString, r', _, _, by simp only [h1], hA1, ?_⟩
+    rw [strRun_nil]
   | ch :: ys, hA =>
     obtain ⟨r1, h1, hA1⟩ := nextOrEof_cons L hA
     simp only [h1, ignoreLetters_spec, uni_consts.2.1]
@@ -373,16 +373,16 @@ theorem ignoreEscape_spec (henv : env.tgt = .ignored) {r : ρ} {xs : Bytes} {k :
         have hrun0 := strRun_u env stk st hst k ys
         by_cases hl : ys.length < 4
         · obtain ⟨r', h4, hA4⟩ := L.hex_eof hA1 hl
-          refine .inr ⟨.EofWhileParsingString, r', by simp only [h4], ?_⟩
-          rw [hrun0, strRun_hex_short env stk _ none rfl _ ys hl, pos_clean L hA4]
+          refine .inr ⟨.EofWhileParsingString, r', _, _, by simp only [h4], hA4, ?_⟩
+          rw [hrun0, strRun_hex_short env stk _ none rfl _ ys hl]
         · obtain ⟨a, b, c, d, zs, rfl⟩ := four_of_len ys hl
           obtain ⟨r5, hA5, h5⟩ := L.hex_ok hA1
           have hrun1 := strRun_hex4 env stk { st with esc := .hex [] none } none rfl (k + 1) a b c d zs
           cases hd : Model.Hex.decodeFourHex a b c d with
           | none =>
             rw [hd] at h5
-            refine .inr ⟨.InvalidEscape, r5, by simp only [h5], ?_⟩
-            rw [hrun0, hrun1, strRun_hex_bad env stk _ none a b c d rfl _ _ (by rw [hex4_eq, hd]), pos_clean L hA5]
+            refine .inr ⟨.InvalidEscape, r5, _, _, by simp only [h5], hA5, ?_⟩
+            rw [hrun0, hrun1, strRun_hex_bad env stk _ none a b c d rfl _ _ (by rw [hex4_eq, hd])]
           | some n =>
             rw [hd] at h5
             have hh : hex4 [a, b, c, d] = some n := by rw [hex4_eq, hd]
@@ -391,8 +391,8 @@ theorem ignoreEscape_spec (henv : env.tgt = .ignored) {r : ρ} {xs : Bytes} {k :
             rw [hrun0, hrun1, strRun_hex_ignored env stk henv _ none a b c d rfl _ _ n hh]
       · have : (ch == 0x75) = false := by simpa using hu
         simp only [this, Bool.false_eq_true, ↓reduceIte]
-        refine .inr ⟨_, r1, rfl, ?_⟩
-        rw [strRun_badEscape env stk st hst k ch ys hs hu, pos_clean L hA1]
+        refine .inr ⟨_, r1, _, _, rfl, hA1, ?_⟩
+        rw [strRun_badEscape env stk st hst k ch ys hs hu]
 
 end escapes
 
